@@ -510,8 +510,53 @@ func (i *Interpreter) evaluateEq(left, right interface{}) (interface{}, error) {
 		return coercedLeft == coercedRight, nil
 	}
 
-	// For non-numeric types, compare directly
-	return left == right, nil
+	// For non-numeric types, compare structurally. Go's == on two interface
+	// values holding arrays or objects panics ("comparing uncomparable type"),
+	// which took the request handler down for `[1] == [1]`.
+	return valuesDeepEqual(left, right), nil
+}
+
+// valuesDeepEqual compares two runtime values: numbers by value (int and float
+// alike), arrays element-wise, objects key-wise, everything else by Go equality
+// of same-typed scalars.
+func valuesDeepEqual(left, right interface{}) bool {
+	if coercedLeft, coercedRight, coerced := CoerceNumeric(left, right); coerced {
+		return coercedLeft == coercedRight
+	}
+	switch l := left.(type) {
+	case []interface{}:
+		r, ok := right.([]interface{})
+		if !ok || len(l) != len(r) {
+			return false
+		}
+		for i := range l {
+			if !valuesDeepEqual(l[i], r[i]) {
+				return false
+			}
+		}
+		return true
+	case map[string]interface{}:
+		r, ok := right.(map[string]interface{})
+		if !ok || len(l) != len(r) {
+			return false
+		}
+		for k, lv := range l {
+			rv, exists := r[k]
+			if !exists || !valuesDeepEqual(lv, rv) {
+				return false
+			}
+		}
+		return true
+	case nil, bool, string, int64, float64, int:
+		switch right.(type) {
+		case nil, bool, string, int64, float64, int:
+			return left == right
+		}
+		return false
+	}
+	// Values of other kinds (providers, futures, functions) are equal only to themselves
+	defer func() { _ = recover() }()
+	return left == right
 }
 
 // evaluateNe handles inequality comparison
